@@ -415,3 +415,68 @@ pub fn panic_msg(p: &Box<dyn std::any::Any + Send>) -> String {
         "<non-string panic payload>".to_string()
     }
 }
+
+
+// ---------------------------------------------------------------------------
+// Single-thread scheduler for the sequential engines: with one thread a lock that is
+// not free can never become free (self-deadlock), a retry loop that waits for another
+// thread never ends, and an operation that passes millions of instrumented points is
+// in an unbounded loop. Instead of hanging the worker these become panics with a
+// recognisable message, which the step oracle turns into C09 violations.
+// ---------------------------------------------------------------------------
+
+pub const SOLO_DEADLOCK: &str = "MMVERIF-SELF-DEADLOCK";
+pub const SOLO_LIVELOCK: &str = "MMVERIF-SELF-LIVELOCK";
+const SOLO_MAX_EVENTS: u64 = 3_000_000;
+const SOLO_MAX_YIELDS: u64 = 20_000;
+
+thread_local! {
+    static SOLO_EVENTS: std::cell::Cell<u64> = const { std::cell::Cell::new(0) };
+    static SOLO_YIELDS: std::cell::Cell<u64> = const { std::cell::Cell::new(0) };
+}
+
+pub struct SoloSched;
+
+impl mini_moka::verif::Sched for SoloSched {
+    fn event(&self, ev: mini_moka::verif::Event<'_>) {
+        use mini_moka::verif::Event;
+        match ev {
+            Event::Switch(label) => {
+                let n = SOLO_EVENTS.with(|c| {
+                    c.set(c.get() + 1);
+                    c.get()
+                });
+                if n > SOLO_MAX_EVENTS {
+                    SOLO_EVENTS.with(|c| c.set(0));
+                    std::panic::panic_any(format!("{SOLO_LIVELOCK} more than {SOLO_MAX_EVENTS} instrumented points in one call (last: {label})"));
+                }
+            }
+            Event::Block(label, probe) => {
+                if !probe() {
+                    std::panic::panic_any(format!("{SOLO_DEADLOCK} at {label}: the calling thread itself holds the lock it is about to take"));
+                }
+            }
+            Event::Yield(label) => {
+                let n = SOLO_YIELDS.with(|c| {
+                    c.set(c.get() + 1);
+                    c.get()
+                });
+                if n > SOLO_MAX_YIELDS {
+                    SOLO_YIELDS.with(|c| c.set(0));
+                    std::panic::panic_any(format!("{SOLO_LIVELOCK} {SOLO_MAX_YIELDS} retries at {label} without progress and no other thread exists"));
+                }
+            }
+        }
+    }
+}
+
+/// Installs the single-thread scheduler for the calling thread.
+pub fn solo_install() {
+    mini_moka::verif::install_sched(Some(std::sync::Arc::new(SoloSched)));
+}
+
+/// Resets the per-call budgets (called before every operation).
+pub fn solo_reset() {
+    SOLO_EVENTS.with(|c| c.set(0));
+    SOLO_YIELDS.with(|c| c.set(0));
+}
